@@ -7,4 +7,5 @@ import Ymq.Props.C13
 #print axioms Ymq.C13.listed_complete_inv
 #print axioms Ymq.C13.listed_complete
 #print axioms Ymq.C13.listed_complete_rehash
+#print axioms Ymq.C13.no_panic
 #print axioms Ymq.C13.cofactor_spec
